@@ -1,8 +1,9 @@
 """C07 — compiling never modifies the caller's sources unless inplace is requested.
 
 Deductive part: frame obligations (one per mutation site reachable from the root) discharged by the
-whole-program points-to/effect analysis of pyvc.frames, for the roots listed in PROVED_ROOTS.
-Bounded part: deep snapshot of the sources before/after every public compile function on fixtures."""
+whole-program points-to/effect analysis of pyvc.frames, for the roots listed in PROVED_ROOTS (all nine public functions).
+Bounded part: deep snapshot of the sources before/after every public compile function on fixtures and on a few synthetic
+in-memory designspaces (paths the fixtures do not reach)."""
 from __future__ import annotations
 
 import json
@@ -14,7 +15,7 @@ from vcheck.extra import hook
 
 ROOT = os.path.dirname(os.path.dirname(os.path.dirname(os.path.abspath(__file__))))
 PID = "C07"
-# roots for which the analysis is exact on the unchanged tree (only the known findings are reported)
+# roots for which the analysis reports nothing but the known findings on the unchanged tree
 PROVED_ROOTS = [
     "compileTTF", "compileOTF", "compileInterpolatableTTFs", "compileInterpolatableTTFsFromDS", "compileInterpolatableOTFsFromDS",
     "compileVariableTTF", "compileVariableTTFs", "compileVariableCFF2", "compileVariableCFF2s",
@@ -175,8 +176,96 @@ def observer_part(pid, tier, out_dir):
                 report("ufoLib2", os.path.join(base, names[0]), "compileInterpolatableTTFs", {}, d)
         except Exception:
             pass
+    # synthetic designspaces that exercise paths the fixtures do not reach (found by the frame analysis):
+    # masters whose lib asks for the propagateAnchors pre-filter, with a nested composite whose base glyph has contours AND
+    # components (so that InterpolatedLayer hands out the glyph object itself instead of interpolating a new one)
+    for name, make in _synthetic_designspaces():
+        for fn in ds_fns:
+            try:
+                ds = make()
+                before = rtlib.snapshot_designspace(ds)
+                try:
+                    getattr(ufo2ft, fn)(ds)
+                except Exception:
+                    pass
+                after = rtlib.snapshot_designspace(ds)
+            except Exception:
+                continue
+            evals += 1
+            d = rtlib.diff_paths(before, after)
+            if d:
+                report("ufoLib2", name, fn, {}, d)
     logging.disable(logging.NOTSET)
     return {"evaluations": evals, "violations": violations, "known": knowns, "samples": samples}
+
+
+def _synthetic_designspaces():
+    import ufoLib2
+    from fontTools.designspaceLib import AxisDescriptor, DesignSpaceDocument, SourceDescriptor
+
+    def master(weight, filters):
+        f = ufoLib2.Font()
+        f.info.familyName = "T"
+        f.info.styleName = "W%d" % weight
+        f.info.unitsPerEm = 1000
+        f.info.ascender = 800
+        f.info.descender = -200
+        f.info.xHeight = 500
+        f.info.capHeight = 700
+
+        def sq(g, x0, y0, x1, y1):
+            p = g.getPen()
+            p.moveTo((x0, y0))
+            p.lineTo((x1, y0))
+            p.lineTo((x1, y1))
+            p.lineTo((x0, y1))
+            p.closePath()
+
+        g = f.newGlyph(".notdef")
+        g.width = 500
+        g = f.newGlyph("a")
+        g.width = 500 + weight // 10
+        g.unicodes = [0x61]
+        sq(g, 50, 0, 400 + weight // 10, 500)
+        g.appendAnchor({"name": "top", "x": 250, "y": 520})
+        g = f.newGlyph("acutecomb")
+        g.width = 0
+        g.unicodes = [0x301]
+        sq(g, -50, 550, 50, 700)
+        g.appendAnchor({"name": "_top", "x": 0, "y": 520})
+        g = f.newGlyph("aacute")  # mixed: one contour and two components
+        g.width = 500 + weight // 10
+        g.unicodes = [0xE1]
+        sq(g, 0, -100, 20, -80)
+        p = g.getPen()
+        p.addComponent("a", (1, 0, 0, 1, 0, 0))
+        p.addComponent("acutecomb", (1, 0, 0, 1, 250, 0))
+        g = f.newGlyph("aacute.alt")  # nested composite
+        g.width = 500 + weight // 10
+        f["aacute.alt"].getPen().addComponent("aacute", (1, 0, 0, 1, 0, 0))
+        f.lib["com.github.googlei18n.ufo2ft.filters"] = filters
+        return f
+
+    def doc(filters):
+        def make():
+            ds = DesignSpaceDocument()
+            ax = AxisDescriptor()
+            ax.name, ax.tag, ax.minimum, ax.default, ax.maximum = "Weight", "wght", 400, 400, 700
+            ds.addAxis(ax)
+            for w in (400, 700):
+                s = SourceDescriptor()
+                s.font = master(w, [dict(x) for x in filters])
+                s.location = {"Weight": w}
+                s.name = "master.%d" % w
+                s.familyName, s.styleName = "T", "W%d" % w
+                ds.addSource(s)
+            return ds
+
+        return make
+
+    yield "synthetic:propagateAnchors-pre.designspace", doc([{"name": "propagateAnchors", "pre": True}])
+    yield "synthetic:flattenComponents-pre.designspace", doc([{"name": "flattenComponents", "pre": True}])
+    yield "synthetic:decomposeTransformedComponents-pre.designspace", doc([{"name": "decomposeTransformedComponents", "pre": True}])
 
 
 @hook(PID)
@@ -191,13 +280,19 @@ def c07(tier, seed):
         "known": fr["known"] + ob["known"],
         "evaluations": ob["evaluations"], "distinct": ob["evaluations"],
         "bounded": [{"what": "deep snapshot of every source (all layers' glyphs, lib, info, kerning, groups, features; designspace document) before/after each of the 9 public compile functions, each static function called twice, on the repository's fixture UFOs/designspaces", "bound": f"{ob['evaluations']} (function, fixture, options, loader) combinations", "result": "clean" if not ob["violations"] else "violations"}],
-        "trusted": ["frames: library calls do not mutate their arguments except through the catalogued mutator / pen-protocol names (pyvc/frames.py MUTATORS, PEN_METHODS, DRAW_METHODS, MUTATING_FUNCS)",
-                    "frames: library functions listed in FRESH_FUNCS / FRESH_METHODS return new objects that do not alias their arguments: " + ", ".join(fr["trusted_fresh"]),
-                    "frames: library objects expose constructor arguments only through keyword-named attributes, a wrapping pen's output pen, and container elements",
-                    "frames: deepcopyExceptFonts / splitInterpolable / splitVariableFonts give fresh documents whose sources still reference the original fonts",
-                    "frames: user-supplied filter / feature-writer / compiler subclasses are not analysed"],
-        "assumptions": ["frame analysis is flow-insensitive except for top-level reassignments (strong updates) and `x is None` tests decided from the final points-to sets (re-validated by restart)",
-                        f"deductive frame proof covers the roots {PROVED_ROOTS}; the interpolatable / variable roots are covered by the bounded observer only"],
+        "trusted": ["frames: library calls do not mutate their arguments except through the catalogued mutator / pen-protocol names (pyvc/frames.py MUTATORS, PEN_METHODS, DRAW_METHODS, MUTATING_FUNCS with the depth each one writes to, ARG_MUTATING_METHODS extractGlyph/extractInfo/extractKerning)",
+                    "frames: library functions listed in FRESH_FUNCS return new objects that do not alias their arguments, and neither keep, mutate nor call them: " + ", ".join(fr["trusted_fresh"]),
+                    "frames: FRESH_METHODS of a source object return new objects; SHALLOW_FRESH_METHODS (values, items, asdict, getDataForSerialization, ...) and copy.copy / .copy() return a new container or record whose CONTENTS are the source's own objects",
+                    "frames: library objects expose constructor arguments only through keyword-named attributes, a wrapping pen's output pen, and container elements; a library CONSTRUCTOR may call functions / bound methods / partials it is given but no other callable instances; PURE_BUILTINS and FRESH_FUNCS do not call their arguments",
+                    "frames: deepcopyExceptFonts gives a fresh document sharing only the `.font` objects; splitInterpolable / splitVariableFonts give new documents with new source descriptors whose other field values are shared by reference (fontTools/designspaceLib/split.py); both are snapshots (stores to the original that provably come later do not reach them)",
+                    "frames: DesignSpaceDocument.loadSourceFonts writes source.font only for sources whose font is None (fontTools/designspaceLib); DesignSpaceDocument.findDefault assigns doc.default",
+                    "frames: the attribute `name` of a source / library object (glyph, layer, anchor, component, axis, source, lookup, ...) is a str",
+                    "frames: input domain -- the argument of compileTTF / compileOTF / compileInterpolatableTTFs is a UFO font (list of fonts) with no DesignSpaceDocument reachable from it; the argument of the *FromDS / compileVariable* functions is a DesignSpaceDocument whose sources' `.font` are such UFO fonts",
+                    "frames: class- and module-level state at the time of the call equals the state after import (constant folding of class-level reflection such as getInterpolatableFilterClass, contents of module-level constant collections); constructors run once per object",
+                    "frames: filters named in the UFO lib resolve to the non-interpolatable filter classes shipped in ufo2ft.filters; user-supplied filter / feature-writer / compiler subclasses are not analysed",
+                    "frames: exceptions raised by library code carry no analysed objects; code synthesised by dataclasses / namedtuple only reads and compares fields; binary special methods receive analysed instances defining the same method"],
+        "assumptions": ["frame analysis: allocation-site points-to, flow-insensitive on the heap; locals by reaching definitions; contexts cloned on constant bool/None/str arguments, on the number of *args and call site of vararg functions, and per allocation site for constructors; `x is None` / isinstance tests decided from the final points-to sets and kept only if re-validated by the fixpoint computed under them; guards narrow locals; constructs outside the model (local classes, global/nonlocal, exec/eval, metaclasses, __new__/__setattr__/__getattribute__/descriptors, explicit __init__ calls) are reported as undischarged obligations",
+                        f"deductive frame proof covers the roots {PROVED_ROOTS}; engine self-test: selftest/frames_run.py (must-alarm / must-not-alarm twins on synthetic programs)"],
         "explanation": f"frame obligations: {fr['obligations']} mutation sites / guards in {len(fr['functions'])} functions reachable from {PROVED_ROOTS}; {fr['discharged']} discharged by the points-to analysis; {len(fr['known'])} sites attributed to known findings. Observer (bounded): {ob['evaluations']} snapshot comparisons.",
         "frame_roots": fr["roots"],
         "frame_functions": len(fr["functions"]),
